@@ -3,4 +3,4 @@ From HV Require Import Base.Res Base.Str Model.Dups Gen.C04Codes.
 Extraction Language OCaml.
 Extraction "../ocaml/build/c04_model.ml"
   force_types mode_of all_tags_issues tag_level_issues check_for_duplicate_groups
-  validate_duration_tags group_checks code_of.
+  validate_duration_tags group_checks validate_onset_offset full_string_checks code_of.
